@@ -2,7 +2,5 @@ package main
 
 import "verifharness/internal/out"
 
-func runCLI(w *out.W, tier string)   {}
 func runRegex(w *out.W, tier string) {}
 func runSpec(w *out.W, tier string)  {}
-func runLoop(w *out.W, tier string)  {}
